@@ -38,7 +38,7 @@ def resample_orientations(
         or len(_fractions.shape) != 2
         or _orientations.shape[0] != _fractions.shape[0]
         or _orientations.shape[1] != _fractions.shape[1]
-        or _orientations.shape[2] != _orientations.shape[3] != 3
+        or _orientations.shape[2:] != (3, 3)
     ):
         raise ValueError(
             "invalid shape of input arrays,"
